@@ -104,6 +104,8 @@ for _tc in ('umap', 'map', 'multimap'):
     _add(_tc, 'erase extract', 'mut', 'W', 'wsize', 'erases')
     _add(_tc, 'clear', 'mut', 'W', 'wsize', 'erases_all')
     _add(_tc, 'swap merge', 'mut', 'W', 'wsize', 'erases_all')
+for _tc in ('map', 'multimap'):
+    _add(_tc, 'key_comp value_comp', 'stable', 'R')
 _add('umap', 'max_load_factor load_factor bucket_count', 'pure', 'R')   # the 1-arg setter is special-cased
 _add('umap', 'reserve rehash', 'mut', 'W', 'rehash')
 _add('optional', 'has_value value operator* operator-> value_or operator bool', 'pure', 'R')
